@@ -18,6 +18,7 @@ import (
 	"strings"
 
 	"github.com/AdguardTeam/AdGuardDNS/internal/agd"
+	"github.com/AdguardTeam/AdGuardDNS/internal/agdnet"
 	"github.com/AdguardTeam/AdGuardDNS/internal/dnsmsg"
 	"github.com/AdguardTeam/AdGuardDNS/internal/dnsserver"
 	"github.com/AdguardTeam/AdGuardDNS/internal/dnssvc"
@@ -175,8 +176,12 @@ var (
 	ctryNames   = []geoip.Country{geoip.CountryNone, geoip.CountryAD, geoip.CountryUS}
 	subdivNames = []string{"", "CA"}
 	asnVals     = []geoip.ASN{0, 7, 42}
-	// hostNames[3] is in ecscache.FakeECSFQDNs.
-	hostNames = []string{"a.example.", "b.example.", "c.example.", "0cf.io."}
+	// hostNames[3] is in ecscache.FakeECSFQDNs.  Indices 4.. are other spellings
+	// of the first four names (DNS names are case-insensitive: the cache keys
+	// use the normalised host, the fake-ECS list is asked about the name as
+	// spelled); spellingsOf maps a base name to them.
+	hostNames   = []string{"a.example.", "b.example.", "c.example.", "0cf.io.", "A.Example.", "B.EXAMPLE.", "0CF.IO.", "0cf.Io.", "a.EXAMPLE."}
+	spellingsOf = map[int][]int{0: {4, 8}, 1: {5}, 3: {6, 7}}
 )
 
 func init() {
@@ -193,6 +198,13 @@ func (g *geoTab) loc(a netip.Addr) *geoip.Location {
 
 	return &geoip.Location{Country: g.ctrys()[li.Ctry], TopSubdivision: g.subdivs()[li.Subdiv], ASN: g.asnOf(li.ASN)}
 }
+
+// sameName is the oracle's own reading of "the same question name": DNS names
+// are compared case-insensitively (RFC 4343).
+func sameName(a, b int) bool { return strings.EqualFold(hostNames[a], hostNames[b]) }
+
+// onFakeList: the name, in any spelling, is on the published fake-ECS list.
+func onFakeList(h int) bool { return ecscache.FakeECSFQDNs.Has(strings.ToLower(hostNames[h])) }
 
 func idxOf[T comparable](xs []T, x T) int {
 	for i, y := range xs {
@@ -570,7 +582,7 @@ func canonObs(o *obs) string {
 
 func (rd *reqDesc) line(token int) string {
 	var sb strings.Builder
-	fmt.Fprintf(&sb, "req %d %s %d %d %d %d", famOf(rd.Remote), addrNat(rd.Remote), rd.Host, rd.QType, rd.QClass, len(rd.RRs))
+	fmt.Fprintf(&sb, "req %d %s %s %d %d %d", famOf(rd.Remote), addrNat(rd.Remote), hostNames[rd.Host], rd.QType, rd.QClass, len(rd.RRs))
 	for _, rr := range rd.RRs {
 		fmt.Fprintf(&sb, " %s %d", b01(rr.DO), len(rr.Opts))
 		for _, o := range rr.Opts {
@@ -616,7 +628,7 @@ func (g *geoTab) modelLines() (ls []string) {
 }
 
 func (sc *scenario) lines() (ls []string) {
-	ls = append(ls, "reset", "fake 3")
+	ls = append(ls, "reset", "fake "+hostNames[3])
 	ls = append(ls, sc.Geo.modelLines()...)
 	for i := range sc.Reqs {
 		if sc.Geo2 != nil && i == sc.RefreshAt {
@@ -821,7 +833,7 @@ func oracle(sc *scenario, os []obs, count func(string)) (vs []violation) {
 		ex[i].called = o.UpCalled
 		if o.UpCalled && rd.Up.Kind == 0 {
 			ucls, _, scope := classifyOpts(rd.Up)
-			ex[i].scoped = ucls == ecsValid && scope != 0 && rd.Host != 3
+			ex[i].scoped = ucls == ecsValid && scope != 0 && !onFakeList(rd.Host)
 		}
 
 		// --- malformed option => FORMERR, nothing leaves.
@@ -874,11 +886,19 @@ func oracle(sc *scenario, os []obs, count func(string)) (vs []violation) {
 		// Served from the cache: the answer was obtained by exchange `tok`.
 		e, src := ex[tok], &sc.Reqs[tok]
 		count("oracle.hit")
-		if src.Host != rd.Host || src.QType != rd.QType || src.QClass != rd.QClass {
+		if !sameName(src.Host, rd.Host) || src.QType != rd.QType || src.QClass != rd.QClass {
 			add("hit-for-other-question", "request %d served the answer of request %d for another question", i, tok)
 		}
 		if !e.scoped {
 			count("oracle.hit_unscoped")
+			// An opted-out client is only served what was obtained for an
+			// opted-out client (with a /0 query), never an answer that was fetched
+			// with some client's subnet in the query, even if the upstream did
+			// not scope it.
+			if scls, sp := classify(src); declined && scls != ecsAmbiguous && !(scls == ecsValid && sp.Bits() == 0) {
+				add("declined-served-answer-fetched-with-subnet", "request %d opted out with /0 but was served the answer of exchange %d, which was fetched for a client that had not opted out (upstream query carried %v)",
+					i, tok, e.up)
+			}
 
 			continue
 		}
@@ -1511,6 +1531,10 @@ func genReq(rng *rand.Rand, nClients, nHosts int) (rd reqDesc) {
 	if rng.IntN(6) == 0 {
 		rd.Host = 3
 	}
+	if sp := spellingsOf[rd.Host]; sp != nil && rng.IntN(5) == 0 {
+		// Another spelling of the same name.
+		rd.Host = pick(rng, sp)
+	}
 	rd.QType = dns.TypeA
 	switch rng.IntN(8) {
 	case 0:
@@ -1724,6 +1748,9 @@ func runCaseObs(r *hlib.Result, m *hlib.Model, sc *scenario, os []obs, ecsCount,
 		}
 		if len(sc.Reqs[i].RRs) > 1 {
 			r.Count("client.two_opt_rrs")
+		}
+		if sc.Reqs[i].Host >= 4 {
+			r.Count("question.other_spelling")
 		}
 		if sc.Reqs[i].Remote.Is4() {
 			r.Count("client.v4")
@@ -2007,12 +2034,16 @@ func unitCampaign(r *hlib.Result, m *hlib.Model) {
 			}
 		}
 	}
-	lines, gots = append(lines, "fake 3"), append(gots, "ok")
+	lines, gots = append(lines, "fake "+hostNames[3]), append(gots, "ok")
 	for scope := 0; scope < 256; scope++ {
-		for _, h := range []int{0, 3} {
-			lines = append(lines, fmt.Sprintf("dep %d %d", scope, h))
+		for _, h := range []int{0, 3, 4, 6, 7} {
+			lines = append(lines, fmt.Sprintf("dep %d %s", scope, hostNames[h]))
 			gots = append(gots, b01(ecscache.VerifC05RespIsECSDependent(uint8(scope), hostNames[h])))
 		}
+	}
+	// agdnet.NormalizeDomain against the model's normalizeDomain.
+	for _, n := range append(append([]string{}, hostNames...), "Xn--Caf-Dma.Example.", "a..", "A", "z.Z.", "@[`{.example.", "\\065\\.b.", "a.example") {
+		lines, gots = append(lines, "norm "+n), append(gots, agdnet.NormalizeDomain(n))
 	}
 	m.ResetLog()
 	answers := m.Batch(append([]string{"reset"}, lines...))[1:]
